@@ -469,6 +469,11 @@ class Engine:
       return v
     raise Unsupported(f"int expected, got {type(v).__name__}")
 
+  def loc(self, node):
+    """Stable site name: the ordinal of the AST node among the nodes of its kind inside the function under
+    verification (unaffected by edits elsewhere in the file); 'x' for nodes of inlined callees."""
+    return getattr(self, "node_ord", {}).get(id(node), "x")
+
   def implicit(self, st, exc, ok, node, what):
     """Implicit exception point: in total mode `ok` is an obligation; in every mode the path continues under `ok`."""
     if st.spec:
@@ -477,7 +482,7 @@ class Engine:
       return
     line = getattr(node, "lineno", 0)
     if self.cur is not None and self.cur.total and (self.prop is None or self.prop in self.cur.total_props):
-      self.emit(st, "no-" + exc, f"{self.cur.qual}/no-{exc}@L{line}", ok, clause=what, line=line,
+      self.emit(st, "no-" + exc, f"{self.cur.qual}/no-{exc}@{self.loc(node)}", ok, clause=what, line=line,
                 props=self.cur.total_props)
     if isinstance(ok, bool):
       raise Infeasible()
@@ -1044,7 +1049,7 @@ class Engine:
     try:
       for cl in c.requires:
         g = self.truthy(st, self.ev(cl.node, st))
-        self.emit(st, "call-pre", f"{self.cur.qual}/call-pre:{c.qual}@L{line}:{cl.text}", g, clause=cl.text,
+        self.emit(st, "call-pre", f"{self.cur.qual}/call-pre:{c.qual}@{self.loc(node)}:{cl.text}", g, clause=cl.text,
                   line=line, props=None)
         st.assume(g)
       raise_conds = []
@@ -1086,7 +1091,7 @@ class Engine:
     if hooks:
       pnames = [a.arg for a in f.node.args.args if a.arg != "self"]
       argv = tuple(env.get(n) for n in pnames)
-      self.run_ghost(st, hooks, {"args": argv, "ret": result}, f"{self.cur.qual}/at-call:{c.qual}@L{line}", line)
+      self.run_ghost(st, hooks, {"args": argv, "ret": result}, f"{self.cur.qual}/at-call:{c.qual}@{self.loc(node)}", line)
     if self.cur is not None and len(st.frames) == 1 and c.qual.split(".")[-1] in getattr(self.cur, "stop_after", ()):
       self.abstracted.add(f"body of {self.cur.qual} after the call of {c.qual} at L{line} (floating-point tail): assumed "
                           "to return normally")
@@ -1452,6 +1457,9 @@ class Engine:
 
   def assign(self, st, target, v):
     if isinstance(target, ast.Name):
+      if (self.cur is not None and len(st.frames) == 1 and target.id in getattr(self.cur, "var_types", {})
+          and isinstance(v, Ptr) and isinstance(st.deref(v), HList)):
+        self.th.retype_list(self, st, st.deref(v), self.cur.var_types[target.id])
       st.frame.env[target.id] = v
     elif isinstance(target, (ast.Tuple, ast.List)):
       items = self.unpack(st, v, len(target.elts), target)
@@ -2065,6 +2073,12 @@ class Engine:
       return dict(status="missing", reason=f"{c.target} not found in working tree")
     self.cur_fn = fn
     self.cur_loops = source.loops_of(fn)
+    self.node_ord = {}
+    counts = {}
+    for nd in ast.walk(fn):
+      k = type(nd).__name__
+      counts[k] = counts.get(k, 0) + 1
+      self.node_ord[id(nd)] = f"{k}{counts[k]}"
     for k in c.loops:
       if k >= len(self.cur_loops):
         return dict(status="missing", reason=f"{c.target}: loop ordinal {k} does not exist")
